@@ -526,9 +526,12 @@ func campaign(r *rep.Report, e rep.Env) {
 			run = append(run, o)
 			if o.Op == "mutEvent" {
 				ev := map[string]interface{}{"mu": o.Id, "evaluate!": map[string]interface{}{
-					"when":      map[string]interface{}{"pattern": map[string]interface{}{"mu": "?n"}},
-					"condition": map[string]interface{}{"pattern": map[string]interface{}{"box": "?b", "at": "?where"}},
-					"action":    map[string]interface{}{"code": "b.count = b.count + 100; b.tags[0] = 'changed by ' + location; b.added = true; 'wrote into a copy'"}}}
+					"when": map[string]interface{}{"pattern": map[string]interface{}{"mu": "?n"}},
+					"condition": map[string]interface{}{"and": []interface{}{
+						map[string]interface{}{"pattern": map[string]interface{}{"box": "?b", "at": "?where"}},
+						// a script in the condition writes into the bound value, too
+						map[string]interface{}{"code": "b.count = b.count + 1000; b.tags[1] = 'changed by the condition at ' + location; true"}}},
+					"action": map[string]interface{}{"code": "b.count = b.count + 100; b.tags[0] = 'changed by ' + location; b.added = true; 'wrote into a copy'"}}}
 				if _, loop := m.ancestors(l); loop {
 					continue
 				}
